@@ -208,7 +208,7 @@ ASSUMPTIONS = [
     "happens on helper thread 1: replacing the scheduler that is executing the computation is not a supported use); helper "
     "threads never have a running scheduler while they are reset. In the compiled build TaskScheduler.reset is `cdef` "
     "(scheduler.pxd:37, not callable from Python although scheduler.pyi lists it): `emptied` falls back to "
-    "asynq.scheduler.reset() there (feature TaskScheduler.reset-not-exposed-by-this-build). The abort handler raises only "
+    "asynq.scheduler.reset() there (feature TaskScheduler.reset-not-exposed-by-this-build) - except while a body is running on that very thread (a task driven at top level whose body issues the event): the fallback would REPLACE the scheduler that is executing the body, the unsupported use, so the event is skipped there (found as a false alarm by a thorough-tier sweep: get_active_task() was None in the next body, compiled build only). The abort handler raises only "
     "at a flush made outside every task (not inside a nested .value() of a body); the actors of an aborted computation are "
     "never resumed (nobody reads their tasks); `extdone` completes never-started tasks only (a started body completed "
     "from outside would later be resumed by the scheduler: C09/C10's business)",
@@ -1945,6 +1945,12 @@ def run_case(case):
                 if r is None:
                     # the compiled build declares it `cdef reset(self)` (scheduler.pxd:37): not callable from Python
                     feat("TaskScheduler.reset-not-exposed-by-this-build")
+                    if asynq.scheduler.get_active_task() is not None:
+                        # a body running on this very thread (a task driven at top level): REPLACING the scheduler that is
+                        # executing it is not a supported use (see ASSUMPTIONS), and emptying it cannot be done from Python
+                        # in this build - the event is skipped (the model's Op.outside 8 leaves the table alone anyway)
+                        feat("emptied-skipped-in-compiled-build-under-a-running-body")
+                        return
                     asynq.scheduler.reset()
                 else:
                     r()
